@@ -18,13 +18,13 @@ _KZ_COMPACT_SUBS = [
     Sub("src/compact_soft/backends.rs", "fn lsx_inv(", "pub(crate) fn lsx_inv(", 1, why="visibility of leaf lsx_inv"),
 ]
 VARIANTS = {
-    "magma": dict(crate="magma", common_mods=["uf"], subs=[
+    "magma": dict(crate="magma", common_mods=["uf", "cuf"], subs=[
         Sub("src/sboxes.rs", "const fn gen_exp_sbox(", "pub(crate) const fn gen_exp_sbox(", 1, why="visibility of gen_exp_sbox for its leaf lemma"),
     ]),
-    "belt-block": dict(crate="belt-block", common_mods=["uf"]),
-    "kuznyechik": dict(crate="kuznyechik", common_mods=["uf"], subs=_KZ_SSE2_SUBS),
-    "kuznyechik:soft": dict(crate="kuznyechik", cfgs=['kuznyechik_backend="soft"'], common_mods=["uf"], subs=_KZ_SOFT_SUBS),
-    "kuznyechik:compact": dict(crate="kuznyechik", cfgs=['kuznyechik_backend="compact_soft"'], common_mods=["uf"], subs=_KZ_COMPACT_SUBS),
+    "belt-block": dict(crate="belt-block", common_mods=["uf", "cuf"]),
+    "kuznyechik": dict(crate="kuznyechik", common_mods=["uf", "cuf"], subs=_KZ_SSE2_SUBS),
+    "kuznyechik:soft": dict(crate="kuznyechik", cfgs=['kuznyechik_backend="soft"'], common_mods=["uf", "cuf"], subs=_KZ_SOFT_SUBS),
+    "kuznyechik:compact": dict(crate="kuznyechik", cfgs=['kuznyechik_backend="compact_soft"'], common_mods=["uf", "cuf"], subs=_KZ_COMPACT_SUBS),
 }
 _KZ = [
     ("kuznyechik", ["kuznyechik/kz_common.rs", "kuznyechik/sse2.rs"]),
